@@ -18,6 +18,24 @@ fn main() {
         "c15" => Box::new(fvh::c15::C15 {
             max_len: args.p_u64("max_len", 6) as usize,
         }),
+        "c02" | "c14r" => Box::new(fvh::c02::C02 {
+            hostile: args.cmd == "c14r",
+            max_ops: args.p_u64("max_ops", 600) as usize,
+            max_stream: args.p_u64("max_stream", 1 << 20) as usize,
+        }),
+        "c11" | "c14w" => Box::new(fvh::c11::C11::new(
+            args.cmd == "c14w",
+            args.p_u64("max_ops", 300) as usize,
+            args.p_u64("max_faults", 24) as usize,
+        )),
+        "c16" => Box::new(fvh::c16::C16 {
+            mode: args.p_str("mode", "enum"),
+            max_len: args.p_u64("max_len", 6) as usize,
+        }),
+        "c13" => Box::new(fvh::c13::C13 {
+            mode: args.p_str("mode", "boundary"),
+            kernel_len: args.p_u64("kernel_len", 6) as usize,
+        }),
         other => {
             eprintln!("unknown monitor {other}");
             std::process::exit(2);
